@@ -2,9 +2,14 @@ package c13
 
 import (
 	"errors"
+	"fmt"
+	"math"
 	"math/rand"
 	"reflect"
+	"strconv"
 	"time"
+
+	ucfg "github.com/elastic/go-ucfg"
 )
 
 // Hand-written "library" types. reflect.StructOf cannot create unexported
@@ -24,10 +29,10 @@ import (
 
 // LibConn: unconditional defaults, an ignored field, unexported fields.
 type LibConn struct {
-	Host    string        `config:"host"`
-	Port    int           `config:"port"`
+	Host    string        `config:"host" alt:"hostname"`
+	Port    int           `config:"port" alt:",ignore"`
 	Timeout time.Duration `config:"timeout"`
-	Keep    string        `config:"keep,ignore"`
+	Keep    string        `config:"keep,ignore" alt:"keep"`
 	secret  string
 	hits    int
 }
@@ -42,7 +47,7 @@ func (c *LibConn) InitDefaults() {
 type LibLimits struct {
 	Lo   int      `config:"lo" c13:"0:50:500:method"`
 	Hi   int      `config:"hi" c13:"60:200:-7:method"`
-	Tags []string `config:"tags,append"`
+	Tags []string `config:"tags,append" alt:"tags,replace"`
 	note string
 	seen bool
 }
@@ -90,11 +95,11 @@ type LibTop struct {
 	PLimits *LibLimits        `config:"plimits"`
 	Plain   LibPlain          `config:",inline"`
 	Ports   []int             `config:"ports"`
-	Extra   []string          `config:"extra,prepend"`
+	Extra   []string          `config:"extra,prepend" alt:"more"`
 	Labels  map[string]string `config:"labels"`
 	Port    LibPort           `config:"port"`
 	Weights [3]float64        `config:"weights"`
-	Frozen  []int             `config:"frozen,ignore"`
+	Frozen  []int             `config:"frozen,ignore" alt:"frozen,append"`
 	Max     int               `config:"max" validate:"min=1" c13:"1:100:0:tag"`
 	count   int
 	label   string
@@ -116,6 +121,210 @@ func (t *LibTop) Validate() error {
 	return nil
 }
 
+// ---------------------------------------------------------------------------
+// Types that unpack themselves. On success each of them does what the library
+// does for an ordinary struct with the same fields (a setting named like the
+// lower-cased field is stored into the field, a null or absent one leaves it),
+// so the model of the statement applies unchanged. They store setting by
+// setting, in declaration order, and fail only afterwards: a setting that does
+// not convert fails after the earlier ones were stored, the consistency rule
+// (lo <= hi) is checked after everything was stored -- by Unpack itself
+// (LibSelf), by a Validate method (LibSelfV).
+
+// LibSelf: Unpack(*ucfg.Config), rejects inconsistent settings itself.
+type LibSelf struct {
+	Lo   int    `config:"lo" c13:"0:50:500:method"`
+	Hi   int    `config:"hi" c13:"60:200:-7:method"`
+	Name string `config:"name"`
+	note string
+}
+
+func (s *LibSelf) Unpack(c *ucfg.Config) error {
+	var lo struct {
+		V *int `config:"lo"`
+	}
+	if err := c.Unpack(&lo); err != nil {
+		return err
+	}
+	if lo.V != nil {
+		s.Lo = *lo.V
+	}
+	var hi struct {
+		V *int `config:"hi"`
+	}
+	if err := c.Unpack(&hi); err != nil {
+		return err
+	}
+	if hi.V != nil {
+		s.Hi = *hi.V
+	}
+	var name struct {
+		V *string `config:"name"`
+	}
+	if err := c.Unpack(&name); err != nil {
+		return err
+	}
+	if name.V != nil {
+		s.Name = *name.V
+	}
+	if s.Hi != 0 && s.Lo > s.Hi { // Hi == 0: not set yet (a freshly allocated value)
+		return errors.New("lo exceeds hi")
+	}
+	return nil
+}
+
+// LibSelfV: Unpack(*ucfg.Config) stores what converts, the Validate method
+// rejects inconsistent results.
+type LibSelfV struct {
+	From  int    `config:"from" c13:"0:50:500:method"`
+	To    int    `config:"to" c13:"60:200:-7:method"`
+	Label string `config:"label"`
+	calls int
+}
+
+func (w *LibSelfV) Unpack(c *ucfg.Config) error {
+	var from struct {
+		V *int `config:"from"`
+	}
+	if err := c.Unpack(&from); err != nil {
+		return err
+	}
+	if from.V != nil {
+		w.From = *from.V
+	}
+	var to struct {
+		V *int `config:"to"`
+	}
+	if err := c.Unpack(&to); err != nil {
+		return err
+	}
+	if to.V != nil {
+		w.To = *to.V
+	}
+	var label struct {
+		V *string `config:"label"`
+	}
+	if err := c.Unpack(&label); err != nil {
+		return err
+	}
+	if label.V != nil {
+		w.Label = *label.V
+	}
+	return nil
+}
+
+func (w *LibSelfV) Validate() error {
+	if w.To != 0 && w.From > w.To { // To == 0: not set yet (a freshly allocated value)
+		return errors.New("from exceeds to")
+	}
+	return nil
+}
+
+// LibSelfAny: the generic Unpack(interface{}), handed a map; converts only
+// what the generator spells (integers as int64 / uint64 / decimal string,
+// strings as string or integer, booleans as bool).
+type LibSelfAny struct {
+	N   int    `config:"n"`
+	S   string `config:"s"`
+	On  bool   `config:"on"`
+	raw int
+}
+
+func (a *LibSelfAny) Unpack(v interface{}) error {
+	m, ok := v.(map[string]interface{})
+	if !ok {
+		return fmt.Errorf("object expected, got %T", v)
+	}
+	switch x := m["n"].(type) {
+	case nil:
+	case int64:
+		a.N = int(x)
+	case uint64:
+		if x > math.MaxInt64 {
+			return errors.New("n overflows")
+		}
+		a.N = int(x)
+	case string:
+		i, err := strconv.ParseInt(x, 10, 64)
+		if err != nil {
+			return err
+		}
+		a.N = int(i)
+	default:
+		return fmt.Errorf("n: number expected, got %T", x)
+	}
+	switch x := m["s"].(type) {
+	case nil:
+	case string:
+		a.S = x
+	case int64:
+		a.S = strconv.FormatInt(x, 10)
+	case uint64:
+		a.S = strconv.FormatUint(x, 10)
+	default:
+		return fmt.Errorf("s: string expected, got %T", x)
+	}
+	switch x := m["on"].(type) {
+	case nil:
+	case bool:
+		a.On = x
+	default:
+		return fmt.Errorf("on: bool expected, got %T", x)
+	}
+	return nil
+}
+
+var (
+	tLibSelf    = reflect.TypeOf(LibSelf{})
+	tLibSelfV   = reflect.TypeOf(LibSelfV{})
+	tLibSelfAny = reflect.TypeOf(LibSelfAny{})
+)
+
+var selfStructs = []reflect.Type{tLibSelf, tLibSelfV, tLibSelfAny}
+
+func newLibSelf(r *rand.Rand) LibSelf {
+	s := LibSelf{Hi: 60 + r.Intn(141)}
+	if maybe(r) {
+		s.Lo = 1 + r.Intn(50)
+	}
+	if maybe(r) {
+		s.Name = word(r)
+	}
+	if maybe(r) {
+		s.note = word(r)
+	}
+	return s
+}
+
+func newLibSelfV(r *rand.Rand) LibSelfV {
+	w := LibSelfV{To: 60 + r.Intn(141)}
+	if maybe(r) {
+		w.From = 1 + r.Intn(50)
+	}
+	if maybe(r) {
+		w.Label = word(r)
+	}
+	if maybe(r) {
+		w.calls = 1 + r.Intn(99)
+	}
+	return w
+}
+
+func newLibSelfAny(r *rand.Rand) LibSelfAny {
+	var a LibSelfAny
+	if maybe(r) {
+		a.N = r.Intn(2000) - 1000
+	}
+	if maybe(r) {
+		a.S = word(r)
+	}
+	a.On = r.Intn(2) == 0
+	if maybe(r) {
+		a.raw = 1 + r.Intn(99)
+	}
+	return a
+}
+
 var (
 	tLibConn   = reflect.TypeOf(LibConn{})
 	tLibLimits = reflect.TypeOf(LibLimits{})
@@ -124,7 +333,7 @@ var (
 	tLibTop    = reflect.TypeOf(LibTop{})
 )
 
-var libStructs = []reflect.Type{tLibConn, tLibLimits, tLibPlain}
+var libStructs = []reflect.Type{tLibConn, tLibLimits, tLibPlain, tLibSelf, tLibSelfV, tLibSelfAny}
 
 var words = []string{"alpha", "beta gamma", "x1", "é-ü", "/usr/local", "10.0.0.1:9200", "q#r", "Zed", "日本", "a_b", "true", "123", " lead", "0x1F"}
 
@@ -265,6 +474,12 @@ func libCtor(t reflect.Type) func(*rand.Rand) reflect.Value {
 		return func(r *rand.Rand) reflect.Value { return reflect.ValueOf(newLibPlain(r)) }
 	case tLibTop:
 		return func(r *rand.Rand) reflect.Value { return reflect.ValueOf(newLibTop(r)) }
+	case tLibSelf:
+		return func(r *rand.Rand) reflect.Value { return reflect.ValueOf(newLibSelf(r)) }
+	case tLibSelfV:
+		return func(r *rand.Rand) reflect.Value { return reflect.ValueOf(newLibSelfV(r)) }
+	case tLibSelfAny:
+		return func(r *rand.Rand) reflect.Value { return reflect.ValueOf(newLibSelfAny(r)) }
 	}
 	return nil
 }
